@@ -1,6 +1,6 @@
 """C08 -- line endings.  DESIGN.md section 6/C08.
 
-Proof: Props/C08.lean (terminator choice, whitespace census) and Props/C08Out.lean (every CR/LF the output
+Proof: Props/C08.lean (terminator choice, whitespace census) and Props/Render.lean (addchar_terminators, render_terminators, termok_*) (every CR/LF the output
 machine emits is part of a whole copy of cpd.newline, for every op sequence / chunk list).
 Tie:   hook-level: Render/AddChar model reproduces op sequence + bytes of every run; chooseNewline vs the
        real cpd.newline; monitored hypotheses (raw writes carry no CR/LF).
@@ -53,16 +53,8 @@ def run(ctx):
     ctx.assumptions += ["raw (is_ignored) writes carry no CR/LF: monitored on every run",
                         "cpd.spaces UINT16 does not wrap (< 65536 pending spaces)"]
     ctx.lean_obligations()
-    extra = "UncModel.Props.C08Out"
-    if os.path.exists(os.path.join(common.LEAN_DIR, "UncModel", "Props", "C08Out.lean")):
-        ok, out = common.lake_build([extra])
-        ctx.oblige("lake build " + extra, ok, "build", None if ok else out[-2000:])
-        names = common.theorems_in("UncModel/Props/C08Out.lean")
-        res, text, rc = common.audit_axioms(extra, names)
-        for n in names:
-            axs = res.get(n)
-            ctx.oblige("theorem %s (axioms: %s)" % (n, "missing" if axs is None else ",".join(axs) or "none"),
-                       axs is not None and set(axs) <= common.ALLOWED_AXIOMS, "theorem")
+    common.lean_extra(ctx, "UncModel.Props.Render",
+                      ["addchar_terminators", "render_terminators", "termok_lf_no_cr", "termok_cr_no_lf", "termok_crlf_pairs"])
 
     exe = common.build_repo(hooks=True)
     thorough = ctx.tier == "thorough"
